@@ -60,8 +60,10 @@ def _serialize_check_stats(check_stats, dtype=None):
             dtype
         ) and hasattr(stat, "strftime"):
             # try serializing stat as a string if it's datetime-like,
-            # otherwise return original value
-            return stat.strftime(DATETIME_FORMAT)
+            # otherwise return original value. ISO 8601 keeps sub-seconds and
+            # the utc offset, and is the same text as DATETIME_FORMAT for
+            # whole seconds without a time zone.
+            return pd.Timestamp(stat).isoformat(sep=" ")
         elif pandas_engine.Engine.dtype(dtypes.Timedelta).check(dtype):
             # try serializing stat into an int in nanoseconds if it's
             # timedelta-like, otherwise return original value
@@ -201,7 +203,7 @@ def _deserialize_check_stats(check, serialized_check_stats, dtype=None):
     def handle_stat_dtype(stat):
         try:
             if pandas_engine.Engine.dtype(dtypes.DateTime).check(dtype):
-                return pd.to_datetime(stat, format=DATETIME_FORMAT)
+                return pd.to_datetime(stat, format="ISO8601")
             elif pandas_engine.Engine.dtype(dtypes.Timedelta).check(dtype):
                 # serialize to int in nanoseconds
                 return pd.to_timedelta(stat, unit="ns")
